@@ -8,7 +8,7 @@ CONSTANTS
   CallerActive = {TRUE, FALSE}
   Grants = {{}, {12}, {66}, {10}, {15}, {99}, {9}, {12,19}}
   AuthPairs = {11,21,12,22}
-  MaxOps = 4
+  MaxOps = 3
   StopAtFailure = FALSE
 INVARIANTS NoEscalation ReadOnlyCallerNeverMutates InactiveCallerSeesNothing OrgIsolation
 PROPERTIES DeniedChangesNothing
